@@ -11,19 +11,37 @@ Definition inv_a (a : av) : bool := wf_a a && coh_a a.
 (* [a'] is fine and the member's part of the variant behaves: [dk] = entries it stops being bound to,
    [real] = the step is not a no-op *)
 Definition good (a a' : av) (dk : nat) (real : bool) : bool :=
-  inv_a a' && (tw_a a' + dk <=? tw_a a) && (if real then mp_a a' <? mp_a a else mp_a a' <=? mp_a a).
+  a_live a' && inv_a a' && (tw_a a' + dk <=? tw_a a) && (if real then mp_a a' <? mp_a a else mp_a a' <=? mp_a a).
 
 (* ---- bounds ---- *)
-Definition pre_live : fin_t := fun live ph ib rejoin ck hb hbin cmin st => live.
-Definition chk_bounds (a : av) : bool := (mp_a a <=? 1023) && (tw_a a <=? 2).
+(* the part of [wf_a] that reads no atom: prunes the enumeration *)
+Definition pre_wf : fin_t := fun live ph ib rejoin ck hb hbin cmin st =>
+  live
+  && (match ph, ib with
+      | PIdle, INone | PJoined, INone | PSyncSent, INone | PSyncSent, IS _ | PJoinSent, IJ _ => true
+      | PJoinSent, INone => ck_ok ck
+      | _, _ => false end)
+  && (ph_eqb ph PIdle || (is_none cmin && negb hb && is_none hbin))
+  && (hb || is_none hbin)
+  && (negb (ck_stale ck) || (opt_in hbin [16%Z] && opt_in cmin [16%Z])).
+Definition chk_bounds (a : av) : bool := negb (wf_a a) || ((mp_a a <=? 1023) && (tw_a a <=? 2)).
+Definition chk_pre_wf (a : av) : bool := negb (wf_a a) || fin_of pre_wf a.
 
 (* ---- steps that leave the coordinator alone ---- *)
 Definition pre_idle (extra : bool -> ckst -> bool -> option Z -> option Z -> bool) : fin_t :=
-  fun live ph ib rejoin ck hb hbin cmin st => live && ph_eqb ph PIdle && nib ib && extra rejoin ck hb hbin cmin.
+  fun live ph ib rejoin ck hb hbin cmin st =>
+    pre_wf live ph ib rejoin ck hb hbin cmin st && ph_eqb ph PIdle && nib ib && extra rejoin ck hb hbin cmin.
 
 Definition chk_find (a : av) : bool :=
   negb (inv_a a && negb (ck_known (a_ck a))) || good a (a_set_ck CkOk a) 0 true.
-Definition pre_find : fin_t := fun live ph ib rejoin ck hb hbin cmin st => live && negb (ck_known ck).
+Definition pre_find : fin_t := fun live ph ib rejoin ck hb hbin cmin st =>
+  pre_wf live ph ib rejoin ck hb hbin cmin st && negb (ck_known ck).
+
+Definition is_zero (s : idsrc) : bool := match s with SZero => true | _ => false end.
+(* entries the member stops being bound to: its id (if in the table) and the id of its JoinGroup exchange *)
+Definition dk_of (a : av) (lost_id lost_focus : bool) : nat :=
+  (if lost_id && negb (a_idz a) && a_id_e a then 1 else 0)
+  + (if lost_focus && ph_eqb (a_ph a) PJoinSent && a_f_e a && negb (a_f_id a) then 1 else 0).
 
 Definition pre_hbsend : fin_t := pre_idle (fun rejoin ck hb hbin cmin => hb && is_none hbin && ck_known ck).
 Definition chk_hbsend (a : av) : bool :=
@@ -34,7 +52,7 @@ Definition chk_hbrecv (a : av) : bool :=
   negb (inv_a a) ||
   match a_hbin a with
   | Some code => let a' := a_recv_hb code a in
-                 good a a' (if negb (a_idz a) && a_id_e a && a_idz a' then 1 else 0) (negb (hb_silent_a a code))
+                 good a a' (dk_of a (is_zero (src_of false (heartbeatDispatch code))) false) (negb (hb_silent_a a code))
   | None => true end.
 
 Definition pre_cmsend : fin_t := pre_idle (fun rejoin ck hb hbin cmin => is_none cmin && ck_known ck).
@@ -46,32 +64,31 @@ Definition chk_cmrecv (a : av) : bool :=
   negb (inv_a a) ||
   match a_cmin a with
   | Some code => let a' := a_recv_cm code a in
-                 good a a' (if negb (a_idz a) && a_id_e a && a_idz a' then 1 else 0) (negb (cm_silent_a a code))
+                 good a a' (dk_of a (is_zero (src_of false (commitDispatch code))) false) (negb (cm_silent_a a code))
   | None => true end.
 
-(* entries the member stops being bound to: its id (if in the table) and the id of its JoinGroup exchange *)
-Definition dk_of (a : av) (lost_id lost_focus : bool) : nat :=
-  (if lost_id && negb (a_idz a) && a_id_e a then 1 else 0)
-  + (if lost_focus && ph_eqb (a_ph a) PJoinSent && a_f_e a && negb (a_f_id a) then 1 else 0).
-
 Definition pre_recvjoin : fin_t := fun live ph ib rejoin ck hb hbin cmin st =>
-  live && ph_eqb ph PJoinSent && match ib with IJ _ => true | _ => false end.
+  pre_wf live ph ib rejoin ck hb hbin cmin st && ph_eqb ph PJoinSent && match ib with IJ _ => true | _ => false end.
+Definition join_src (code : Z) : idsrc :=
+  if has ARetryJoin (joinRetryDispatch code) then src_of true (joinRetryDispatch code)
+  else if has ASuccess (joinDispatch code) then SFocus else src_of true (joinDispatch code).
 Definition chk_recvjoin (a : av) : bool :=
   negb (inv_a a) ||
   match a_ib a with
   | IJ code =>
       let a' := a_recv_join code a in
-      let adopted := has ARetryJoin (joinRetryDispatch code) || has ASuccess (joinDispatch code) in
-      let reset := a_idz a' && negb (a_idz a) in
-      good a a' (dk_of a (reset || (adopted && negb (a_f_id a))) (negb (adopted || (a_f_id a && negb reset)))) true
+      let id_kept := match join_src code with SSame => true | SFocus => a_f_id a | SZero => a_idz a end in
+      let focus_kept := match join_src code with SSame => a_f_id a | SFocus => true | SZero => false end in
+      good a a' (dk_of a (negb id_kept) (negb focus_kept)) true
   | _ => true end.
 
 Definition pre_recvsync : fin_t := fun live ph ib rejoin ck hb hbin cmin st =>
-  live && ph_eqb ph PSyncSent && match ib with IS _ => true | _ => false end.
+  pre_wf live ph ib rejoin ck hb hbin cmin st && ph_eqb ph PSyncSent && match ib with IS _ => true | _ => false end.
 Definition chk_recvsync (a : av) : bool :=
   negb (inv_a a) ||
   match a_ib a with
-  | IS code => let a' := a_recv_sync code a in good a a' (dk_of a (a_idz a' && negb (a_idz a)) false) true
+  | IS code => let a' := a_recv_sync code a in
+               good a a' (dk_of a (negb (has ASuccess (syncDispatch code)) && is_zero (src_of false (syncDispatch code))) false) true
   | _ => true end.
 
 (* ---- sends ---- *)
@@ -81,7 +98,7 @@ Definition a_enter_join (ib : ibk) (fz f_e f_p f_jp f_sp f_id gz g_eq g_le : boo
       (a_idz a) (a_id_e a) (a_id_p a) (a_id_jp a) (a_id_sp a) (a_genz a) (a_gen_eq a) (a_gen_le a)
       fz f_e f_p f_jp f_sp f_id gz g_eq g_le.
 Definition pre_sendjoin : fin_t := fun live ph ib rejoin ck hb hbin cmin st =>
-  live && ph_eqb ph PIdle && nib ib && is_none cmin && ck_known ck && rejoin.
+  pre_wf live ph ib rejoin ck hb hbin cmin st && ph_eqb ph PIdle && nib ib && is_none cmin && ck_known ck && rejoin.
 (* to the wrong node *)
 Definition a_join_stale (a : av) : av :=
   a_enter_join (IJ 16) (a_idz a) (a_id_e a) (a_id_p a) (a_id_jp a) (a_id_sp a) true true (a_G0 a) true a.
@@ -117,7 +134,7 @@ Definition chk_join_immediate (a : av) : bool :=
   || good a (a_join_immediate a) 0 true.
 
 Definition pre_sendsync : fin_t := fun live ph ib rejoin ck hb hbin cmin st =>
-  live && ph_eqb ph PJoined && nib ib && ck_known ck.
+  pre_wf live ph ib rejoin ck hb hbin cmin st && ph_eqb ph PJoined && nib ib && ck_known ck.
 Definition a_send_sync (ib : ibk) (sp : bool) (a : av) : av :=
   mkA (a_live a) PSyncSent false (a_ck a) (a_hb a) ib (a_hbin a) (a_cmin a) (a_st a) (a_G0 a)
       (a_idz a) (a_id_e a) (a_id_p a) (a_id_jp a) sp (a_genz a) (a_gen_eq a) (a_gen_le a)
@@ -160,8 +177,8 @@ Definition T_empty (bump : bool) (a : av) : av :=
       (a_fz a) (a_f_e a) (a_f_p a) (a_f_jp a) (a_f_sp a) (a_f_id a)
       (a_gz a) (if bump then false else a_g_eq a) (if bump then true else a_g_le a).
 
-Definition pre_any : fin_t := fun live ph ib rejoin ck hb hbin cmin st => live.
-Definition keeps (a a' : av) : bool := inv_a a' && (tw_a a' <=? tw_a a).
+Definition pre_any : fin_t := pre_wf.
+Definition keeps (a a' : av) : bool := a_live a' && inv_a a' && (tw_a a' <=? tw_a a).
 (* any member, _prepare_rebalance from Stable / CompletingRebalance / Empty *)
 Definition chk_T_prep (a : av) : bool :=
   negb (inv_a a && negb (cstate_eqb (a_st a) CPreparing)) || keeps a (T_prep a).
@@ -177,22 +194,37 @@ Definition chk_T_empty (a : av) : bool :=
   negb (inv_a a && negb (a_id_e a) && negb (a_f_e a)) || (keeps a (T_empty true a) && keeps a (T_empty false a)).
 
 
+(* ---- the requester in the steps that change the coordinator's state ---- *)
+(* a JoinGroup that starts a rebalance (new id; known id in Stable - the model does this for the leader only; first
+   member): afterwards the coordinator is in PreparingRebalance with this member parked: one trigger fewer *)
+Definition chk_join_trigger (a : av) : bool :=
+  negb (join_ok_pre a && negb (cstate_eqb (a_st a) CPreparing) && (negb (a_id_e a) || cstate_eqb (a_st a) CStable))
+  || (let a' := T_prep (a_join_parked a) in inv_a a' && (tw_a a' + 1 <=? tw_a a)).
+(* the leader's SyncGroup in CompletingRebalance *)
+Definition chk_sync_leader (a : av) : bool :=
+  negb (inv_a a && cstate_eqb (a_st a) CCompleting && negb (ck_stale (a_ck a))
+        && (validate_a (a_idz a) (a_id_e a) (a_gen_eq a) =? 0)%Z)
+  || keeps a (T_syncdone (a_send_sync INone (a_id_sp a) a)).
+
 (* ---- all of it, by evaluation ---- *)
-Lemma ok_bounds : forall_av pre_live chk_bounds = true. Proof. vm_compute. reflexivity. Qed.
-Lemma ok_find : forall_av pre_find chk_find = true. Proof. vm_compute. reflexivity. Qed.
-Lemma ok_hbsend : forall_av pre_hbsend chk_hbsend = true. Proof. vm_compute. reflexivity. Qed.
-Lemma ok_hbrecv : forall_av pre_hbrecv chk_hbrecv = true. Proof. vm_compute. reflexivity. Qed.
-Lemma ok_cmsend : forall_av pre_cmsend chk_cmsend = true. Proof. vm_compute. reflexivity. Qed.
-Lemma ok_cmrecv : forall_av pre_cmrecv chk_cmrecv = true. Proof. vm_compute. reflexivity. Qed.
-Lemma ok_recvjoin : forall_av pre_recvjoin chk_recvjoin = true. Proof. vm_compute. reflexivity. Qed.
-Lemma ok_recvsync : forall_av pre_recvsync chk_recvsync = true. Proof. vm_compute. reflexivity. Qed.
-Lemma ok_join_stale : forall_av pre_sendjoin chk_join_stale = true. Proof. vm_compute. reflexivity. Qed.
-Lemma ok_join_79 : forall_av pre_sendjoin chk_join_79 = true. Proof. vm_compute. reflexivity. Qed.
-Lemma ok_join_25 : forall_av pre_sendjoin chk_join_25 = true. Proof. vm_compute. reflexivity. Qed.
-Lemma ok_join_parked : forall_av pre_sendjoin chk_join_parked = true. Proof. vm_compute. reflexivity. Qed.
-Lemma ok_join_immediate : forall_av pre_sendjoin chk_join_immediate = true. Proof. vm_compute. reflexivity. Qed.
-Lemma ok_sendsync : forall_av pre_sendsync chk_sendsync = true. Proof. vm_compute. reflexivity. Qed.
-Lemma ok_T_prep : forall_av pre_any chk_T_prep = true. Proof. vm_compute. reflexivity. Qed.
-Lemma ok_T_barrier : forall_av pre_any chk_T_barrier = true. Proof. vm_compute. reflexivity. Qed.
-Lemma ok_T_syncdone : forall_av pre_any chk_T_syncdone = true. Proof. vm_compute. reflexivity. Qed.
-Lemma ok_T_empty : forall_av pre_any chk_T_empty = true. Proof. vm_compute. reflexivity. Qed.
+Time Lemma ok_bounds : forall_av pre_wf chk_bounds = true. Proof. vm_compute. reflexivity. Qed.
+Time Lemma ok_find : forall_av pre_find chk_find = true. Proof. vm_compute. reflexivity. Qed.
+Time Lemma ok_hbsend : forall_av pre_hbsend chk_hbsend = true. Proof. vm_compute. reflexivity. Qed.
+Time Lemma ok_hbrecv : forall_av pre_hbrecv chk_hbrecv = true. Proof. vm_compute. reflexivity. Qed.
+Time Lemma ok_cmsend : forall_av pre_cmsend chk_cmsend = true. Proof. vm_compute. reflexivity. Qed.
+Time Lemma ok_cmrecv : forall_av pre_cmrecv chk_cmrecv = true. Proof. vm_compute. reflexivity. Qed.
+Time Lemma ok_recvjoin : forall_av pre_recvjoin chk_recvjoin = true. Proof. vm_compute. reflexivity. Qed.
+Time Lemma ok_recvsync : forall_av pre_recvsync chk_recvsync = true. Proof. vm_compute. reflexivity. Qed.
+Time Lemma ok_join_stale : forall_av pre_sendjoin chk_join_stale = true. Proof. vm_compute. reflexivity. Qed.
+Time Lemma ok_join_79 : forall_av pre_sendjoin chk_join_79 = true. Proof. vm_compute. reflexivity. Qed.
+Time Lemma ok_join_25 : forall_av pre_sendjoin chk_join_25 = true. Proof. vm_compute. reflexivity. Qed.
+Time Lemma ok_join_parked : forall_av pre_sendjoin chk_join_parked = true. Proof. vm_compute. reflexivity. Qed.
+Time Lemma ok_join_immediate : forall_av pre_sendjoin chk_join_immediate = true. Proof. vm_compute. reflexivity. Qed.
+Time Lemma ok_sendsync : forall_av pre_sendsync chk_sendsync = true. Proof. vm_compute. reflexivity. Qed.
+Time Lemma ok_T_prep : forall_av pre_any chk_T_prep = true. Proof. vm_compute. reflexivity. Qed.
+Time Lemma ok_T_barrier : forall_av pre_any chk_T_barrier = true. Proof. vm_compute. reflexivity. Qed.
+Time Lemma ok_T_syncdone : forall_av pre_any chk_T_syncdone = true. Proof. vm_compute. reflexivity. Qed.
+Time Lemma ok_T_empty : forall_av pre_any chk_T_empty = true. Proof. vm_compute. reflexivity. Qed.
+Time Lemma ok_join_trigger : forall_av pre_sendjoin chk_join_trigger = true. Proof. vm_compute. reflexivity. Qed.
+Time Lemma ok_sync_leader : forall_av pre_sendsync chk_sync_leader = true. Proof. vm_compute. reflexivity. Qed.
+Time Lemma ok_pre_wf : forall_av pre_wf (fun a => true) = true. Proof. vm_compute. reflexivity. Qed.
